@@ -151,7 +151,9 @@ impl Scenario for C10 {
                 }
             }
         };
-        let n_tx = rng.usize(1, max_tx);
+        // 1 run in 100: one frame heard hundreds or thousands of times within a window
+        let big_group = rng.chance(0.01);
+        let n_tx = if big_group { rng.usize(300, 2500) } else { rng.usize(1, max_tx) };
         // receiver clocks (mode 1 only): skew in ms, optional jump
         let clock_faults = mode == 1 && rng.chance(0.6);
         let skew: Vec<i64> = (0..n_rx)
@@ -184,7 +186,7 @@ impl Scenario for C10 {
         let mut last_frame = 0usize;
         for i in 0..n_tx {
             // gap to the previous transmission
-            let gap = match rng.below(9) {
+            let gap = match if big_group { rng.below(2) } else { rng.below(9) } {
                 0 => 0,
                 1 => rng.range(0, 3),
                 2 => rng.range(0, w.max(1)),
@@ -196,7 +198,7 @@ impl Scenario for C10 {
                 _ => rng.range(2 * w + 1, 20 * w + 1000),
             };
             t_ms += gap;
-            let f = if rng.chance(0.55) {
+            let f = if rng.chance(if big_group { 0.98 } else { 0.55 }) {
                 last_frame
             } else {
                 rng.usize(0, frames.len() - 1)
